@@ -14,6 +14,7 @@ import (
 	"encoding/json"
 	"fmt"
 	"regexp"
+	"runtime/debug"
 	"sort"
 	"strconv"
 	"strings"
@@ -125,11 +126,11 @@ type C07Logger struct {
 	Name string `json:"name"`
 	// Plain: New(name) | Args: New(name, args...) | OptWith: New(name, With(args...)) | OptAttrs1: New(name, WithAttrs1(attrs))
 	// child only: With(args...) | WithAttrs(attrs...) | WithAttrs1(attrs) | WithContextKeys(keys...)
-	Create   string    `json:"create"`
-	Segs     []C07Seg  `json:"segs,omitempty"`
-	Mods     []C07Mod  `json:"mods,omitempty"`
-	Keys     []C07Key  `json:"keys,omitempty"`      // registered context keys
-	KeySplit int       `json:"key_split,omitempty"` // SetContextKeys(Keys[:KeySplit]...) then SetContextKeys(Keys[KeySplit:]...)
+	Create   string   `json:"create"`
+	Segs     []C07Seg `json:"segs,omitempty"`
+	Mods     []C07Mod `json:"mods,omitempty"`
+	Keys     []C07Key `json:"keys,omitempty"`      // registered context keys
+	KeySplit int      `json:"key_split,omitempty"` // SetContextKeys(Keys[:KeySplit]...) then SetContextKeys(Keys[KeySplit:]...)
 }
 
 // the logger's own attributes as the API calls give them (New(name, args...) makes a
@@ -244,6 +245,8 @@ type C07Case struct {
 	Level   int         `json:"level,omitempty"`
 	Msg     string      `json:"msg"`
 	Args    []C07Seg    `json:"args,omitempty"`
+
+	canon string // pattern cases: the pattern itself identifies the input
 }
 
 func (c C07Case) logger() C07Logger { return c.Chain[len(c.Chain)-1] }
@@ -801,6 +804,9 @@ func c07Nontrivial(c C07Case) bool {
 }
 
 func c07Canon(c C07Case) string {
+	if c.canon != "" {
+		return c.canon
+	}
 	k := c.Kind
 	c.Kind = ""
 	b, _ := json.Marshal(c)
@@ -952,13 +958,26 @@ func c07One(r *Run, c C07Case, toCoq bool, runeSet map[rune]bool) {
 		if len(o.Payloads) > 0 {
 			obs = strconv.Quote(string(o.Payloads[0]))
 		}
-		r.AddCase(c.Coq(o, ts), c07Replay{Case: c, Observed: obs}, nt, c07Canon(c))
+		// kept as marshalled bytes: thousands of attribute trees held as structs make every GC cycle of the long
+		// enumeration expensive
+		raw, _ := json.Marshal(c07Replay{Case: c, Observed: obs})
+		r.AddCase(c.Coq(o, ts), json.RawMessage(raw), nt, c07Canon(c))
+	} else if c.canon != "" {
+		// enumerated patterns are distinct inputs by construction: counted without keeping a hash per case
+		r.Evals++
+		if nt {
+			r.DistinctExtra++
+		}
 	} else {
 		r.Count(nt, c07Canon(c))
 	}
 	r.Dist["mode="+c.Mode]++
-	r.Dist[fmt.Sprintf("inherit=%v", c.Inherit)]++
-	r.Dist[fmt.Sprintf("depth=%d", len(c.Chain))]++
+	if c.Inherit {
+		r.Dist["inherit=on"]++
+	} else {
+		r.Dist["inherit=off"]++
+	}
+	r.Dist["depth="+strconv.Itoa(len(c.Chain))]++
 	r.Dist["call="+c.Call]++
 	n := len(c07Flat(c.Args))
 	switch {
@@ -1186,6 +1205,7 @@ func c07Pattern(pat []int, split [4]int, inherit bool, mode string, variant int)
 		return GAttr{Key: names[(pat[p]+variant)%5], Val: GVal{Kind: "int", I: int64(p + 1)}}
 	}
 	c := C07Case{Kind: "pattern", Mode: mode, Inherit: inherit, Call: "InfoContext", Msg: "p"}
+	c.canon = fmt.Sprint("pattern", pat, split, inherit, mode, variant)
 	p := 0
 	var keys []C07Key
 	for i := 0; i < split[0]; i, p = i+1, p+1 {
@@ -1219,17 +1239,23 @@ func c07Pattern(pat []int, split [4]int, inherit bool, mode string, variant int)
 		}
 		return l
 	}
+	// (With / WithAttrs make a randomly named child, which costs a re-seeding of math/rand in the library: used for
+	// one variant in eight here; the random cases use them freely)
 	if len(anc) > 0 || variant%2 == 1 {
 		if len(anc) >= 2 && variant%4 >= 2 {
 			h := len(anc) / 2
-			c.Chain = append(c.Chain, mkl("r", "OptAttrs1", anc[:h]), mkl("m", "WithAttrs", anc[h:]))
+			mid := "OptAttrs1"
+			if variant%8 == 7 {
+				mid = "WithAttrs"
+			}
+			c.Chain = append(c.Chain, mkl("r", "OptAttrs1", anc[:h]), mkl("m", mid, anc[h:]))
 		} else {
 			c.Chain = append(c.Chain, mkl("r", []string{"OptAttrs1", "Args"}[variant%2], anc))
 		}
 	}
-	create := []string{"WithAttrs", "With", "OptWith", "WithAttrs1"}[variant%4]
-	if len(c.Chain) == 0 {
-		create = []string{"OptAttrs1", "Args", "OptWith"}[variant%3]
+	create := []string{"OptAttrs1", "Args", "OptWith"}[variant%3]
+	if len(c.Chain) > 0 && variant%8 == 7 {
+		create = []string{"WithAttrs", "With", "WithAttrs1"}[variant/8%3]
 	}
 	l := mkl("l", create, own)
 	l.Keys = keys
@@ -1281,10 +1307,10 @@ func c07Splits(n int) [][4]int {
 func c07Enumerate(r *Run, runeSet map[rune]bool) {
 	modes := []string{"json", "logfmt", "color"}
 	idx := 0
-	fullN, wideN, wideKeys := 5, 0, 0
-	sample := 41
+	fullN, wideN := 6, 0
+	sample := 241
 	if r.Thorough() {
-		fullN, wideN, wideKeys = 8, 14, 3
+		fullN, wideN = 8, 14
 		sample = 997
 	}
 	one := func(pat []int, split [4]int) {
@@ -1304,18 +1330,31 @@ func c07Enumerate(r *Run, runeSet map[rune]bool) {
 		})
 	}
 	r.Extra["exhaustive_E1"] = fmt.Sprintf("all key patterns (<= 5 keys) over 1..%d positions x all splits of the positions over context/ancestors/logger/call x flag on/off, formats in rotation", fullN)
-	// (E2) longer lists (the sort of the standard library changes algorithm above 12 elements): <= wideKeys keys over
-	// fullN+1..wideN positions on four fixed splits
+	// (E2) longer lists (the sort of the standard library changes algorithm above 12 elements), on four fixed splits:
+	// all patterns with <= 2 keys over fullN+1..wideN positions on every split, all patterns with exactly 3 keys over 13
+	// positions on the splits in rotation
 	for n := fullN + 1; n <= wideN; n++ {
 		q := n / 4
 		splits := [][4]int{{0, 0, 0, n}, {0, 0, n / 2, n - n/2}, {q, q, q, n - 3*q}, {0, n - 1, 0, 1}}
-		c07RGS(n, wideKeys, func(pat []int) {
-			s := splits[idx/2%4]
-			one(pat, s)
+		c07RGS(n, 2, func(pat []int) {
+			for _, s := range splits {
+				one(pat, s)
+			}
 		})
+		if n == 13 {
+			c07RGS(n, 3, func(pat []int) {
+				three := false
+				for _, l := range pat {
+					three = three || l == 2
+				}
+				if three {
+					one(pat, splits[idx/2%4])
+				}
+			})
+		}
 	}
 	if wideN > 0 {
-		r.Extra["exhaustive_E2"] = fmt.Sprintf("all key patterns with <= %d keys over %d..%d positions, each on one of four splits (all in the call / logger+call / spread over the four sources / ancestors+call) x flag on/off", wideKeys, fullN+1, wideN)
+		r.Extra["exhaustive_E2"] = fmt.Sprintf("all key patterns with <= 2 keys over %d..%d positions on each of four splits (all in the call / logger+call / spread over the four sources / ancestors+call) and all patterns with exactly 3 keys over 13 positions on these splits in rotation, x flag on/off", fullN+1, wideN)
 	}
 	r.Extra["pattern_evaluations"] = idx
 }
@@ -1411,11 +1450,12 @@ func runC07(r *Run) {
 	snap := slog.VerifSnapshot()
 	encSetup(snap)
 	r.ShardSize = 100
+	defer debug.SetGCPercent(debug.SetGCPercent(400)) // millions of short-lived loggers; the live heap is small
 	runeSet := map[rune]bool{}
 	for _, c := range c07Corpus() {
 		c07One(r, c, true, runeSet)
 	}
-	for i := r.N(500, 12000); i > 0; i-- {
+	for i := r.N(700, 12000); i > 0; i-- {
 		c07One(r, c07Random(r.R, r.Thorough()), true, runeSet)
 	}
 	c07Enumerate(r, runeSet)
